@@ -725,8 +725,12 @@ let run_net args lib =
         let name = List.map n_of_int bs in
         let ((rs, c'), l) = fetch_user_input w is_https resolve cap parse_ref url_parse host_of mk_url !cache name in
         cache := c'; log := !log @ l;
-        let kind = (match rs with FUOk _ -> "item" | FUErr _ -> "failure") in
-        out := !out @ [0 :: put_jv (JStr (txt kind)) @ [0]];
+        (* what pub.New makes of it: kind of item and, for the post / actor bearing the content (an activity's target), the id
+           it is shown under and its name (Open.opened_summary) *)
+        let ((summary, c''), l2) = opened_summary w is_https resolve cap parse_ref url_parse host_of !cache rs in
+        cache := c''; log := !log @ l2;
+        ignore txt;
+        out := !out @ [0 :: put_jv (JStr summary) @ [0]];
         cold := !cold @ [[-1]]
       | NFeed (ins, table, amounts) ->
         (* splicer.NewSplicer(inputs) + Harvest through the continuation: Splicer.sp_harvest over sources that are remote
